@@ -202,6 +202,7 @@ int32 matrixSslDecodeTls13(ssl_t *ssl,
     psSize_t parsedBytes = 0;
     psBuf_t tmp;
     psBool_t useOutbufForResponse = PS_FALSE;
+    psBool_t recordWasDecrypted = PS_FALSE;
 
     if (ssl->flags & SSL_FLAGS_NEED_ENCODE)
     {
@@ -317,7 +318,8 @@ parse_next_record_header:
         }
     }
 
-    if (DECRYPTING_RECORDS(ssl))
+    recordWasDecrypted = DECRYPTING_RECORDS(ssl) ? PS_TRUE : PS_FALSE;
+    if (recordWasDecrypted)
     {
         decryptTo = pb.buf.start; /* In-situ decryption. */
         if (ssl->decrypt(ssl, pb.buf.start, decryptTo, ssl->rec.len) < 0)
@@ -446,7 +448,10 @@ parse_next_record_header:
                     &p, end);
             if (rc < 0)
             {
-                if (DECRYPTING_RECORDS(ssl))
+                /* Skip the tag, inner type and padding only if this
+                   record was protected: the message just parsed may have
+                   activated the read keys. */
+                if (recordWasDecrypted)
                 {
                     p += TLS_GCM_TAG_LEN;
                     p += 1;
@@ -941,6 +946,18 @@ static int32_t tls13ParseHandshakeMessage(ssl_t *ssl,
     rc = tls13CheckHsState(ssl, type);
     if (rc < 0)
     {
+        goto exit;
+    }
+
+    /* RFC 8446, 5.1: handshake messages MUST NOT span key changes; a
+       message that immediately precedes a key change must end at a record
+       boundary, otherwise unexpected_message. */
+    if ((type == SSL_HS_SERVER_HELLO || type == SSL_HS_FINISHED ||
+                    type == SSL_HS_EOED) && *bufStart != bufEnd)
+    {
+        psTraceErrr("Data after a message that precedes a key change\n");
+        ssl->err = SSL_ALERT_UNEXPECTED_MESSAGE;
+        rc = MATRIXSSL_ERROR;
         goto exit;
     }
 
